@@ -171,25 +171,33 @@ def describe(case, impl, model, spec):
         d.update(kind="damaged spelling: accept/reject + EvalBool over the row table, model only",
                  text_with_placeholders=_unhex(f[1]).decode("latin-1"), atom_truth=f[2])
     elif f[0] == "r":
-        d.update(kind="re-spelling: ast.Parse + EvalBool over the row table",
+        d.update(kind="re-spelling: ast.Parse + EvalBool over the row table (14 rows; rows 9-14 have NULL / absent "
+                      "fields: 9 n; 10 s; 11 n,s,flag,g; 12 flag; 13 g; 14 n,s; `tags` is empty on rows 3,6,8,10,11,13)",
                  base_skeleton=f[1], spelled_with_placeholders=_unhex(f[2]).decode("latin-1"),
                  spelled_skeleton=spelled_skeleton(_unhex(f[2]).decode("latin-1")), atom_truth=f[3])
     return d
 
 
 RULE = ("k: every token sequence over {atom ( ) and or not} up to length 5 (quick) / 7 (thorough); every "
-        "well-formed skeleton with (atoms, <=parens, <=nots) in {(1,2,2),(2,2,2),(3,2,2),(4,2,1)} (quick) / "
+        "well-formed skeleton with (atoms, <=parens, <=nots) in {(1,2,2),(2,2,2),(3,2,2),(4,2,1)} (quick; of the 4-atom "
+        "skeletons those with two pairs of parentheses and a not are sampled 1 in 3) / "
         "{(1,3,3),(2,3,3),(3,3,3),(4,2,2),(5,2,1)} (thorough), atoms distinct, all 2^n assignments; constants, a "
-        "string-typed symbol, repeated atoms; 300 / 5000 random skeletons with 5-8 atoms; related operands: every "
+        "string-typed symbol, repeated atoms; 200 / 5000 random skeletons with 5-8 atoms; related operands: every "
         "ordered pair of bracketings of one sequence of 3..4 (quick) / 3..5 (thorough) atoms x every connective "
         "sequence x {and, or} (3 atoms: also negated / with parentheses left out), constants next to a string-typed "
-        "symbol, 1200 / 8000 random members with 3-8 atoms per operand (the same sequence grouped in two ways, "
+        "symbol, 900 / 8000 random members with 3-8 atoms per operand (the same sequence grouped in two ways, "
         "identical, mirrored, distant, part-whole, one atom or connective different, under not, nested, constants / "
         "string-typed symbol inside, some parentheses left out), all 2^n assignments of the distinct atoms; 200 / "
-        "1500 of that family over operation atoms as r-cases.  r: 2500 / 50000 random "
+        "1500 of that family over operation atoms as r-cases.  r: operation atoms (bool symbols, =, !=, <, <=, >, >= on "
+        "int / string / bool fields, in, between, contains, icontains and their not-forms, anyOf / allOf / isEmpty on a "
+        "set field; 25 atoms, 2-3 spellings each) over a 14-row table in which every scalar field is present-true, "
+        "present-false and NULL / absent on some row and the set is empty on some rows; atom truth computed by the "
+        "generator from the row (null operand: comparison false, != / not contains true); negated atoms: every atom in "
+        "21 shapes (a, not a, not (a), (not (a)), not not a, not (not (a)), not ((a)), b and not a, a or (not (a)), "
+        "not (a and b), not a and b, (not (a)) and (not (b)), ...) x 1 / 8 rounds of spellings; 1800 / 46000 random "
         "re-spellings (keyword case, blanks/tabs/CR/LF, 0-3 redundant pairs of parentheses, operator-case and "
-        "spacing variants inside the atoms) of random mixed queries with 1-5 operation atoms over an 8-row table.  "
-        "x: 2500 / 40000 damaged spellings (required blank removed, word split/glued, parenthesis dropped/doubled, "
+        "spacing variants inside the atoms) of random mixed queries with 1-5 operation atoms.  "
+        "x: 1500 / 40000 damaged spellings (required blank removed, word split/glued, parenthesis dropped/doubled, "
         "reserved or keyword-like word as atom, `not` + blank + in…/contains…) compared with the lexer model only.  "
         "non-trivial = accepted and mixes at least two of {and, or, not, parentheses}; distinct = (kind, skeleton "
         "/ spelled text)")
@@ -206,7 +214,9 @@ TRUSTED = common.BASE_TRUST + [
 def run(ctx, replay_cases=None):
     ctx.assumptions += [
         "atoms are opaque: an operation (`n = 3`, `s contains \"x\"`) behaves like a boolean symbol with respect to "
-        "the surrounding connectives (both are primary alternatives of boolExpr); exercised by the r-cases",
+        "the surrounding connectives (both are primary alternatives of boolExpr); exercised by the r-cases, in which "
+        "the atom values per row come from the generator's own reading of the row (incl. NULL fields and empty sets), "
+        "so `not (P)` is checked against whatever P evaluates to, not against a complementary operator",
         "the generated parser hands every operator the rest of its level as right operand; the grouping is restored "
         "by the listener (ExitGroup marks parenthesised nodes, ExitAndExpr re-associates) - both parts are modelled",
         "after the listener the tree is only typed node by node (BooleanLogicExprNode / UntypedNotExprNode "
